@@ -153,7 +153,7 @@ Proof.
 Qed.
 
 Theorem tc_sound : forall T e G rho t,
-  tc T G e = Some t -> env_ok T G rho -> exists v, eval T rho e = Ok v /\ vty T t v = true.
+  tc T G e = Some t -> env_ok T G rho -> exists v, peval T rho e = Ok v /\ vty T t v = true.
 Proof.
   intros T. induction e; intros G rho t Htc Henv; simpl in Htc.
   - (* ENone *) inversion Htc; subst. eexists; split; reflexivity.
@@ -251,7 +251,7 @@ Proof.
     + destruct (tc T ((x, TObj cls) :: G) e1) eqn:E1; [|discriminate].
       destruct (sub t0 TJson) eqn:Es; [|discriminate]. inversion Htc; subst.
       simpl in V2. destruct v2; try discriminate. clear Ev2.
-      assert (H : exists r, mapres (fun h => eval T ((x, h) :: rho) e1) l = Ok r /\ is_json (VList r) = true).
+      assert (H : exists r, mapres (fun h => peval T ((x, h) :: rho) e1) l = Ok r /\ is_json (VList r) = true).
       { induction l as [|h l IHl]; [eexists; split; reflexivity|].
         simpl in V2. apply andb_true_iff in V2. destruct V2 as [Vh Vl].
         destruct (IHl Vl) as (r & Er & Jr).
@@ -262,7 +262,7 @@ Proof.
     + destruct (tc T ((x, TPairBytes) :: G) e1) eqn:E1; [|discriminate].
       destruct (sub t0 TJson) eqn:Es; [|discriminate]. inversion Htc; subst.
       simpl in V2. destruct v2; try discriminate. clear Ev2.
-      assert (H : exists r, mapres (fun h => eval T ((x, h) :: rho) e1) l = Ok r /\ is_json (VList r) = true).
+      assert (H : exists r, mapres (fun h => peval T ((x, h) :: rho) e1) l = Ok r /\ is_json (VList r) = true).
       { induction l as [|h l IHl]; [eexists; split; reflexivity|].
         simpl in V2. apply andb_true_iff in V2. destruct V2 as [Vh Vl].
         destruct (IHl Vl) as (r & Er & Jr).
@@ -323,12 +323,12 @@ Theorem tcs_sound : forall T s G G' rho,
   tcs T G s = Some G' -> env_ok T G rho -> exists r, exec T rho s = Ok r /\ post T G' r.
 Proof.
   intros T. induction s; intros G G' rho H Henv; simpl in H.
-  - (* SSkip *) inversion H; subst. eexists; split; [reflexivity|]. split; simpl; [auto|discriminate].
-  - (* SRet *) destruct (tc T G e) eqn:E; [|discriminate]. destruct (sub t TJson) eqn:Es; [|discriminate].
+  - (* PSkip *) inversion H; subst. eexists; split; [reflexivity|]. split; simpl; [auto|discriminate].
+  - (* PRet *) destruct (tc T G e) eqn:E; [|discriminate]. destruct (sub t TJson) eqn:Es; [|discriminate].
     inversion H; subst. destruct (tc_sound _ _ _ _ _ E Henv) as (v & Ev & Vv). simpl. rewrite Ev. simpl.
     eexists; split; [reflexivity|]. split; simpl; [discriminate|]. intros v0 E0. inversion E0; subst.
     apply (sub_sound _ _ _ _ Es Vv).
-  - (* SAssign *) destruct (tc T G e) eqn:E; [|discriminate].
+  - (* PAssign *) destruct (tc T G e) eqn:E; [|discriminate].
     destruct (tc_sound _ _ _ _ _ E Henv) as (v & Ev & Vv). simpl. rewrite Ev. simpl.
     eexists; split; [reflexivity|]. split; simpl; [|discriminate]. intros _.
     destruct (lookup x G) eqn:El.
@@ -338,7 +338,7 @@ Proof.
         exists v. split; [reflexivity|]. apply (sub_sound _ _ _ _ Es Vv).
       * apply Henv. exact Hy.
     + inversion H; subst. apply env_ok_cons; assumption.
-  - (* SSetItem *) destruct (lookup x G) eqn:El; [|discriminate]. destruct t; try discriminate.
+  - (* PSetItem *) destruct (lookup x G) eqn:El; [|discriminate]. destruct t; try discriminate.
     destruct (tc T G k) eqn:Ek; [|discriminate]. destruct t; try discriminate.
     destruct (tc T G e) eqn:Ee; [|discriminate]. destruct (sub t TJson) eqn:Es; [|discriminate]. inversion H; subst.
     destruct (tc_sound _ _ _ _ _ Ek Henv) as (kv & Ekv & Vk). destruct (tc_sound _ _ _ _ _ Ee Henv) as (v & Ev & Vv).
@@ -350,12 +350,12 @@ Proof.
       eexists; split; [reflexivity|]. simpl. apply dict_set_json; [|exact Vd].
       pose proof (sub_sound _ _ _ _ Es Vv) as J. exact J.
     + apply Henv. exact Hy.
-  - (* SSeq *) destruct (tcs T G s1) eqn:E1; [|discriminate].
+  - (* PSeq *) destruct (tcs T G s1) eqn:E1; [|discriminate].
     destruct (IHs1 _ _ _ E1 Henv) as (r1 & Er1 & [P1 Q1]). simpl. rewrite Er1. simpl.
     destruct (snd r1) eqn:Es.
     + eexists; split; [reflexivity|]. split; [rewrite Es; discriminate|]. intros v Hv. apply Q1. congruence.
     + apply (IHs2 _ _ _ H). apply P1. reflexivity.
-  - (* SIf *) destruct (tc T G c) eqn:Ec; [|discriminate]. destruct t; try discriminate.
+  - (* PIf *) destruct (tc T G c) eqn:Ec; [|discriminate]. destruct t; try discriminate.
     destruct (tcs T G s1) eqn:E1; [|discriminate]. destruct (tcs T G s2) eqn:E2; [|discriminate]. inversion H; subst.
     destruct (tc_sound _ _ _ _ _ Ec Henv) as (v & Ev & Vv). simpl. rewrite Ev. simpl.
     destruct v; try discriminate. simpl. destruct b.
@@ -363,7 +363,7 @@ Proof.
       intros Hn. apply (env_ok_ext _ _ _ _ (tcs_ext _ _ _ _ E1)). apply P. exact Hn.
     + destruct (IHs2 _ _ _ E2 Henv) as (r & Er & [P Q]). exists r. split; [exact Er|]. split; [|exact Q].
       intros Hn. apply (env_ok_ext _ _ _ _ (tcs_ext _ _ _ _ E2)). apply P. exact Hn.
-  - (* SIfInst *) destruct (lookup x G) eqn:El; [|discriminate]. destruct t; try discriminate.
+  - (* PIfInst *) destruct (lookup x G) eqn:El; [|discriminate]. destruct t; try discriminate.
     destruct (Henv _ _ El) as (v & Ev & Vv). simpl in Vv. simpl. rewrite Ev.
     assert (Hn : narrow tn <> TUnknown) by (intros E; rewrite E in H; discriminate).
     assert (H' : exists Ga Gb, tcs T ((x, narrow tn) :: G) s1 = Some Ga /\ tcs T G s2 = Some Gb /\ G' = G).
@@ -383,7 +383,7 @@ Proof.
       * apply P'. simpl. rewrite Ey. exact Hy.
     + destruct (IHs2 _ _ _ E2 Henv) as (r & Er & [P Q]). exists r. split; [exact Er|]. split; [|exact Q].
       intros Hr. apply (env_ok_ext _ _ _ _ (tcs_ext _ _ _ _ E2)). apply P. exact Hr.
-  - (* SForPair *) destruct (tc T G e) eqn:Ee; [|discriminate]. destruct t; try discriminate.
+  - (* PForPair *) destruct (tc T G e) eqn:Ee; [|discriminate]. destruct t; try discriminate.
     destruct (lookup kx G) eqn:Ekx; [discriminate|]. destruct (lookup vx G) eqn:Evx; [discriminate|].
     destruct (tcs T ((vx, TAny) :: (kx, TStr) :: G) s) eqn:Eb; [|discriminate]. inversion H. subst G'. clear H.
     destruct (tc_sound _ _ _ _ _ Ee Henv) as (v & Ev & Vv). simpl. rewrite Ev. simpl.
